@@ -78,3 +78,34 @@ def fanout(binary, total, nproc, outdir, extra_args=(), start=0, timeout=3600):
 def merge_counts(dst, src):
     for k, v in (src or {}).items():
         dst[k] = dst.get(k, 0) + v
+
+
+GOSYNC_FILES = ["mutex.go", "rwmutex.go", "waitgroup.go", "once.go", "cond.go"]
+
+
+def instantiate_gosync(moddir, goroot=None):
+    """Copies Go's own sync sources (the ones llgo compiles unchanged on top of sema_llgo.go) into the
+    harness module: internal/sync/mutex.go -> isync, sync/{mutex,rwmutex,waitgroup,once,cond}.go -> gsync;
+    imports of sync/atomic, internal/race, internal/sync are redirected to the yielding stand-ins."""
+    goroot = goroot or core.GO124
+    isync = os.path.join(moddir, "isync")
+    gsync = os.path.join(moddir, "gsync")
+    os.makedirs(isync, exist_ok=True)
+    os.makedirs(gsync, exist_ok=True)
+
+    def conv(src, dst, pkg):
+        s = open(src).read()
+        s = re.sub(r"^//go:(linkname|build).*\n", "", s, flags=re.M)
+        s = s.replace('"internal/race"', 'race "schedharness/race"')
+        s = s.replace('"sync/atomic"', 'atomic "schedharness/yatomic"')
+        s = s.replace('isync "internal/sync"', 'isync "schedharness/isync"')
+        s, n = re.subn(r"^package sync\s*$", "package " + pkg, s, count=1, flags=re.M)
+        if n != 1:
+            core.broken("no package clause in " + src)
+        open(dst, "w").write(s)
+    conv(os.path.join(goroot, "src/internal/sync/mutex.go"), os.path.join(isync, "mutex.go"), "isync")
+    for fn in GOSYNC_FILES:
+        conv(os.path.join(goroot, "src/sync", fn), os.path.join(gsync, fn), "gsync")
+    for tmpl, dst in (("isynctmpl", isync), ("gsynctmpl", gsync)):
+        for fn in os.listdir(os.path.join(moddir, tmpl)):
+            shutil.copy(os.path.join(moddir, tmpl, fn), os.path.join(dst, fn[:-5] if fn.endswith(".tmpl") else fn))
